@@ -95,6 +95,10 @@ def cases(tier, seed):
     for i in range(20 if tier == 'quick' else 600):
         cs.append(dict(kind='boris', M=int(rng.integers(2, 6)), qt=['LOBATTO', 'RADAU-RIGHT'][i % 2], nt=['LEGENDRE', 'LEGENDRE', 'EQUID', 'CHEBY-2'][int(rng.integers(0, 4))], dtexp=float(rng.uniform(-1.5, -0.3)),
                        nsweeps=int(rng.integers(8, 16)), seed=int(rng.integers(0, 2**31)), _cost=10))
+        if i % 3 == 2:
+            # the Picard configuration of the second-order sweeper (QT = Qx = 0): the only other pair of names whose node-to-node
+            # structure the Boris velocity update supports
+            cs[-1].update(qd='PIC', nsweeps=cs[-1]['nsweeps'] + 10)
     alphas = [0.3, 1e-1, 1e-2, 1e-3, 1e-4, 1e-6, 1e-8]
     for i in range(60 if tier == 'quick' else 1200):
         cs.append(dict(kind='paradiag', M=int(rng.integers(1, 6)), n=int(rng.integers(1, 5)), L=int(rng.integers(1, 13)), alpha=float(alphas[int(rng.integers(0, len(alphas)))]),
@@ -513,11 +517,15 @@ def run_boris(case, r):
     wB = float(rng.uniform(2.2, 6.0)) * wE
     pp = dict(omega_B=wB, omega_E=wE, u0=np.array([[10, 0, 0], [100, 0, 100], [1], [1]], dtype=object), nparts=1, sig=0.1)
     M, qt, dt = case['M'], case['qt'], 10 ** case['dtexp'] / wB
-    r.key = f"boris/{qt}/{case['nt']}/{M}/{case['seed'] % 1000}"
+    qd = case.get('qd', 'default')
+    r.key = f"boris/{qd}/{qt}/{case['nt']}/{M}/{case['seed'] % 1000}"
     tag = r.key + f' dt={dt:.3g}'
     try:
         gen = ref.coll(M, case['nt'], qt)
-        S = make_step(penningtrap, pp, boris_2nd_order, dict(num_nodes=M, quad_type=qt, node_type=case['nt']), dict(dt=dt))
+        swp = dict(num_nodes=M, quad_type=qt, node_type=case['nt'])
+        if qd != 'default':
+            swp.update(QI=qd, QE=qd)
+        S = make_step(penningtrap, pp, boris_2nd_order, swp, dict(dt=dt))
     except Exception as e:  # noqa
         r.count('rejected_at_construction')
         r.check(True, 'noop', '')
@@ -576,6 +584,7 @@ def run_boris(case, r):
     r.check(errs[-1] <= 1e-8 * sc or errs[-1] <= 1e-3 * errs[0], 'boris-sweeps-converge-to-collocation', f'{tag}: errors to the collocation solution over {len(errs)} sweeps: {[f"{x:.1e}" for x in errs[:8]]}')
     r.nontrivial = True
     r.observe('family', 'boris')
+    r.count(f'boris_{qd}')
     r.sample = dict(case={k: v for k, v in case.items() if not k.startswith('_')}, errors=errs[:6])
 
 
@@ -831,6 +840,9 @@ def finalize(agg):
     for f in FAMILIES + ['verlet', 'paradiag', 'dae_fully', 'dae_semi', 'dae_rk', 'multistep', 'boris']:
         if f not in fam:
             out.append(f'sweeper family {f} never reached the node-value oracle')
+    for k in ('boris_default', 'boris_PIC'):
+        if c.get(k, 0) == 0:
+            out.append(f'Boris configuration {k} never reached the fixed-point oracle')
     if len(agg['seen'].get('rk_class', ())) < 10:
         out.append('fewer than 10 Runge-Kutta classes reached the stage oracle')
     return out
